@@ -301,9 +301,14 @@ def s_enclosing(draw):
         sgn = draw(st.sampled_from([[1, -1], [1, 1], [-1, -1]]))
         # region: small polygon in degrees around the centre
         n = draw(st.integers(3, 6))
-        span = draw(st.sampled_from([0.001, 0.01, 0.05]))
+        span = draw(st.sampled_from([0.001, 0.01, 0.05, 1.0, 4.0, 10.0]))
+        if span >= 1.0:
+            # regions hundreds of km across: the sides of a lon/lat box are visibly curved on the projected grid
+            res = draw(st.sampled_from([1000.0, 2500.0, 10000.0]))
         pts = [[clon + span * draw(st.floats(-1, 1)), clat + span * draw(st.floats(-1, 1))] for _ in range(n)]
-        return {"mode": "other", "label": label, "centre": [clon, clat], "res": res, "rot": rot, "sgn": sgn, "pts": pts, "as_bbox": draw(st.booleans())}
+        pts = [[max(lon0, min(lon1, x)), max(lat0, min(lat1, y))] for x, y in pts]
+        return {"mode": "other", "label": label, "centre": [clon, clat], "res": res, "rot": rot, "sgn": sgn, "pts": pts,
+                "as_bbox": draw(st.booleans()) or span >= 1.0 and draw(st.booleans())}
     base = draw(s_base())
     # region in pixel coordinates of the base grid, mapped to the world by the oracle
     n = draw(st.integers(3, 6))
@@ -354,8 +359,32 @@ def o_enclosing(case, T):
     require(abs(a_ - 1) < tol and abs(e_ - 1) < tol and abs(b_) < tol and abs(d_) < tol, "enclosing changed pixel size/orientation")
     require(abs(c_ - round(c_)) < tol and abs(f_ - round(f_)) < tol, "enclosing result is off the source grid by (%.9g, %.9g) px", float(c_), float(f_))
     # region vertices in the pixel plane of the result (oracle projection for the other-CRS case)
+    sag = 0.0
     if case["mode"] == "other":
-        rx, ry = tr.transform([p[0] for p in ring], [p[1] for p in ring])
+        if case["as_bbox"]:
+            # a BoundingBox is the rectangle [x0,x1] x [y0,y1] of ITS crs: its sides are curves on this grid.  Truth =
+            # 64 points per side; anything within the sag of a 16-segments-per-side outline is not judged
+            import numpy as np
+
+            R = np.asarray(ring, dtype="float64")
+            nxt = np.roll(R, -1, axis=0)
+            t = (np.arange(64) / 64)[None, :, None]
+            dense = (R[:, None, :] * (1 - t) + nxt[:, None, :] * t).reshape(-1, 2)
+            dx, dy = tr.transform(dense[:, 0], dense[:, 1])
+            ring = [tuple(p) for p in dense]
+            rx, ry = list(dx), list(dy)
+            iS = ~src.affine
+            P64 = np.array([iS * (float(x), float(y)) for x, y in zip(dx, dy)])
+            for k in range(0, len(P64), 4):  # chords of the 16-segment outline
+                p0, p1 = P64[k], P64[(k + 4) % len(P64)]
+                v = p1 - p0
+                L = float(np.hypot(*v)) or 1.0
+                for q in P64[k + 1: k + 4]:
+                    sag = max(sag, abs(float(v[0] * (q[1] - p0[1]) - v[1] * (q[0] - p0[0]))) / L)
+            if sag > 0.01:
+                T.cls("bbox_sides_curved>0.01px")
+        else:
+            rx, ry = tr.transform([p[0] for p in ring], [p[1] for p in ring])
         ring_w = list(zip(rx, ry))
     else:
         ring_w = ring
@@ -364,7 +393,7 @@ def o_enclosing(case, T):
     px = [p[0] for p in pix]
     py = [p[1] for p in pix]
     ny, nx = out.shape
-    slack = Fr(1, 10**6) if not fam_exact else Fr(1, 10**9)
+    slack = (Fr(1, 10**6) if not fam_exact else Fr(1, 10**9)) + Fr(1.1 * sag)
     require(min(px) >= -slack and max(px) <= nx + slack and min(py) >= -slack and max(py) <= ny + slack,
             "enclosing %r does not cover the region: region spans x[%.7g,%.7g] y[%.7g,%.7g] in its pixels, shape %r", out.shape, float(min(px)), float(max(px)), float(min(py)), float(max(py)), (ny, nx))
     # excess < 1 px per side (one pixel minimum)
